@@ -21,8 +21,8 @@ THEOREMS = ['C15.quotes_table_ok', 'C15.bool_table_ok', 'C15.lists_table_ok', 'C
             'C15.list_roundtrip', 'C15.comma_list_empty', 'C15.list_items_refused',
             'C15.reject_atomic', 'C15.reject_atomic_setValue', 'C15.getSpecific_sound', 'C15.override_local',
             'C15.follow_general', 'C15.fresh_child_inherits', 'C15.reset_network_follows', 'C15.file_always_loads',
-            'C15.string_variants_roundtrip', 'C15.name_unescape_escape', 'C15.name_escape_roundtrip_partial',
-            'C15.name_escape_counterexample', 'C15.reset_channel_follows', 'C15.source_constants_ok',
+            'C15.string_variants_roundtrip', 'C15.name_unescape_escape', 'C15.name_escape_roundtrip', 'C15.name_trailing_backslash',
+            'C15.joined_name_ends_unescaped', 'C15.reset_channel_follows', 'C15.source_constants_ok',
             'C15.socket_timeout_verdict', 'C15.socket_timeout_reject_atomic',
             'C15.validators_check_before_store', 'C15.guarded_verdict', 'C15.guarded_string_roundtrip', 'C15.only_some_strings_roundtrip',
             'C15.json_roundtrip', 'C15.float_roundtrip', 'C15.regexp_roundtrip',
@@ -254,8 +254,7 @@ def finding_of_value(k, name, stored):
     return None
 
 def finding_of_names(names):
-    if any(n.endswith('\\') for n in names):
-        return 'C15-name-trailing-backslash'
+    """(the former class "a component ending in a backslash" has been fixed)"""
     return None
 
 # ------------------------------------------------------------------------------------------
@@ -826,8 +825,8 @@ def stream_validators(I, R, r, n):
 TREE_ALPHA = 'abXY01 "\'\\:#,-é中\x85\t'
 TREE_PR = None
 NETS = ['neta', 'NetB']            # networks the stub world knows
-CHANS = ['#x', '#Y', '&loc', '!Safe']      # every default CHANTYPES prefix of ircutils.isChannel ('+' is not one: see the odd probes)
-PROBES = [(n, c) for n in (None, 'neta', 'netb') for c in (None, '#x', '#y', '&loc', '!safe')]
+CHANS = ['#x', '#Y', '&loc', '!Safe', '#b\\']      # every default CHANTYPES prefix of ircutils.isChannel ('+' is not one: see the odd probes)
+PROBES = [(n, c) for n in (None, 'neta', 'netb') for c in (None, '#x', '#y', '&loc', '!safe', '#b\\')]
 
 class _StubIrc(object):
     def __init__(self, network): self.network = network
@@ -1634,7 +1633,7 @@ def stream_tree_any(I, R, r, n_hist, maxops=10):
                     res, text = T.save_load(); ops.append(['save_load']); tags.add('any-save-load')
                     if res == 'up' and twice:
                         res, text2 = T.save_load(); ops.append(['save_load'])
-                        if res == 'up' and sorted(file_value_lines(text2)) != sorted(file_value_lines(text)):
+                        if res == 'up' and sorted(l.split(': ', 1)[0] for l in file_value_lines(text2)) != sorted(l.split(': ', 1)[0] for l in file_value_lines(text)):   # names only: sets print in any order
                             fails.append('values read from %r and saved again before being used give %r: set values were dropped' % (file_value_lines(text), file_value_lines(text2)))
                     if res != 'up':
                         fails.append('the saved file %r does not load' % (file_value_lines(text),)); break
@@ -1645,8 +1644,6 @@ def stream_tree_any(I, R, r, n_hist, maxops=10):
                     if T.dump() != dump_before:
                         fails.append('save + load changed the set values: %r -> %r' % (dump_before, T.dump()))
             fid = None
-            if fails and cname.startswith(('SpaceSeparated', 'CommaSeparated')):
-                fid = 'C15-empty-comma-list' if 'Comma' in cname else 'C15-list-element-separator'
             R.add_oracle(Case({'op': 'tree_any', 'class': cname, 'kind': kind, 'ops': ops}, oracle_ok=not fails, oracle_msg='; '.join(fails[:3]),
                               kind='tree-any', tags=sorted(tags), finding=fid))
     finally:
